@@ -227,6 +227,8 @@ class Result:
         self.instances.append(d)
 
     def violation(self, rule, subject, msg, loc=None, **detail):
+        # the marks the inliner leaves in the paths of re-parented closures are not part of a finding's identity
+        subject = re.sub(r"::\{inlined#\d+ [^}]*\}", "", subject)
         key = "%s|%s|%s" % (self.prop, rule, subject)
         v = self.violations.get(key)
         if v is None:
